@@ -1533,6 +1533,74 @@ def oracle_eq_colliding_defaults(ctx):
                              {"check": "eq-colliding", "order": order, "round": round_, "config": cfg, "where": where, "reported": text})
 
 
+def oracle_derived_defaults(ctx):
+    """Named probes (no randomness): defaults of schemas DERIVED by transform_schema - "each reported default value is GraphQL syntax that
+    parses back to the declared default" and "the standard introspection query returns ..." (a response).
+      T14  VisibilitySchemaTransform hid the input field `secret`: the reported default `{a: 7}` must read back to the default the argument
+           declares (= what `{ f }` hands to the resolver): today {'a': 7, 'secret': 9} (C14's finding, seen through introspection);
+      A12  `scalar Date` implemented by a plain SchemaVisitor: the standard query must answer, and every reported default must read back
+           (through the scalar's own parser) to the declared default."""
+    import datetime
+    from py_gql import build_schema, graphql_blocking
+    from py_gql.lang import parse_value
+    from py_gql.schema import ScalarType, SchemaVisitor
+    from py_gql.schema.transforms import VisibilitySchemaTransform, transform_schema
+    from py_gql.utilities import value_from_ast
+    d0 = {"check": "derived-defaults"}
+
+    class HideSecret(VisibilitySchemaTransform):
+        def is_input_field_visible(self, typename, fieldname):
+            return fieldname != "secret"
+
+    class ImplementDate(SchemaVisitor):
+        def on_scalar(self, scalar):
+            if scalar.name == "Date":
+                return ScalarType("Date", serialize=lambda d: d.isoformat(), parse=lambda x: datetime.date.fromisoformat(x))
+            return scalar
+
+    probes = [
+        ("hidden-input-field", "default-not-declared:hidden-input-field", HideSecret(),
+         "input In { a: Int = 1 secret: Int = 2 } input Outer { inner: In = {a: 3} } "
+         "type Query { f(i: In = {a: 7, secret: 9}, o: Outer = {}, l: [In!] = [{secret: 1}]): String }"),
+        ("visitor-implemented-scalar", "default-not-declared:scalar-implemented-by-visitor", ImplementDate(),
+         'scalar Date input Range { start: Date = "2020-01-01" } type Query { f(day: Date = "2020-01-02", days: [Date] = ["2020-01-03"], r: Range = {}): Int }'),
+    ]
+    for name, sig, visitor, sdl in probes:
+        try:
+            schema = transform_schema(build_schema(sdl), visitor)
+        except Exception as e:  # noqa
+            ctx.stat("derived-defaults:%s:refused:%s" % (name, type(e).__name__))
+            continue
+        ctx.count()
+        ctx.nontrivial(("derived-defaults", name))
+        try:
+            res = graphql_blocking(schema, std_query())
+            data = res.response().get("data") if not res.errors else None
+            err = None if data else "errors: %s" % [str(e)[:80] for e in (res.errors or [])]
+        except Exception as e:  # noqa
+            data, err = None, "%s: %s" % (type(e).__name__, str(e)[:120])
+        if data is None:
+            ctx.fail("introspection-raises:" + name, "the standard introspection query on a schema derived by transform_schema gives no answer (%s)" % err,
+                     dict(d0, probe=name, sdl=sdl))
+            continue
+        types = {t["name"]: t for t in data["__schema"]["types"]}
+        field = schema.types["Query"].field_map["f"]
+        bad = []
+        for arg in types["Query"]["fields"][0]["args"]:
+            a = field.argument_map[arg["name"]]
+            try:
+                back = value_from_ast(parse_value(arg["defaultValue"]), a.type)
+            except Exception as e:  # noqa
+                back = "<%s>" % type(e).__name__
+            if back != a.default_value:
+                bad.append((arg["name"], arg["defaultValue"], repr(back), repr(a.default_value)))
+        ctx.stat("derived-defaults:%s:%s" % (name, "differs" if bad else "reads-back"))
+        if bad:
+            ctx.fail(sig + ":" + "+".join(b[0] for b in bad),
+                     "after transform_schema the reported defaults do not read back to the declared ones (argument, reported, read back, declared): %s" % bad,
+                     dict(d0, probe=name, sdl=sdl))
+
+
 def run(ctx):
     try:
         oracle_eq_colliding_defaults(ctx)
@@ -1544,6 +1612,7 @@ def run(ctx):
         oracle_inexpressible_defaults(ctx)
         oracle_directive_locations(ctx)
         oracle_numeric_strings(ctx)
+        oracle_derived_defaults(ctx)
         _run(ctx)
     finally:
         L.shutdown()
@@ -1591,9 +1660,10 @@ def replay(ctx, data):
         sub = Ctx2(ctx)
         oracle_eq_colliding_defaults(sub)
         return not any(f["signature"] == data.get("signature") for f in sub.found)
-    if inp.get("check") in ("directive-locations", "numeric-strings", "null-reason", "inexpressible-defaults", "meta-below-non-query", "hunt3", "hunt3-findings"):
+    if inp.get("check") in ("directive-locations", "numeric-strings", "null-reason", "inexpressible-defaults", "meta-below-non-query", "hunt3", "hunt3-findings",
+                            "derived-defaults"):
         sub = Ctx2(ctx)
-        {"directive-locations": oracle_directive_locations, "numeric-strings": oracle_numeric_strings,
+        {"directive-locations": oracle_directive_locations, "numeric-strings": oracle_numeric_strings, "derived-defaults": oracle_derived_defaults,
          "null-reason": oracle_null_reason, "inexpressible-defaults": oracle_inexpressible_defaults,
          "meta-below-non-query": oracle_meta_below_non_query, "hunt3": oracle_hunt3, "hunt3-findings": oracle_hunt3_findings}[inp["check"]](sub)
         return not any(f["signature"] == data.get("signature") for f in sub.found)
